@@ -2684,7 +2684,11 @@ func (a *Association) getOrCreateStream(
 	defaultPayloadType PayloadProtocolIdentifier,
 ) *Stream {
 	if s, ok := a.streams[streamIdentifier]; ok {
-		s.SetDefaultPayloadType(defaultPayloadType)
+		// Inbound data looks the stream up with PayloadTypeUnknown: that must
+		// not wipe the default the application opened the stream with.
+		if defaultPayloadType != PayloadTypeUnknown {
+			s.SetDefaultPayloadType(defaultPayloadType)
+		}
 
 		return s
 	}
